@@ -203,6 +203,14 @@ func (g *GruleEngine) ExecuteWithContext(ctx context.Context, dataCtx ast.IDataC
 			}
 		}
 
+		// the context may have been cancelled while the last entry was being evaluated: that entry
+		// was then skipped, so the candidate list can not be trusted.
+		if ctx.Err() != nil {
+			log.Error("Context canceled")
+
+			return ctx.Err()
+		}
+
 		// disabled to test the rete's variable change detection.
 		// knowledge.RuleContextReset()
 		log.Tracef("Selected rules %d.", len(runnable))
